@@ -34,7 +34,8 @@ def rand_op(rnd, files, mbytes):
         v = rnd.choice(VERSIONS)
         return {"k": "opcode", "version": v, "pypy": rnd.random() < 0.2 and v in ([2, 7], [3, 5], [3, 6], [3, 7], [3, 8], [3, 9], [3, 10])}
     if k == "stdapi":
-        return {"k": "stdapi", "version": rnd.choice(VERSIONS)}
+        v = rnd.choice(VERSIONS)
+        return {"k": "stdapi", "version": v, "pypy": rnd.random() < 0.35 and v in ([2, 7], [3, 5], [3, 6], [3, 7], [3, 8], [3, 9], [3, 10])}
     if k == "mdumps":
         return {"k": "mdumps", "value": rnd.randrange(18)}
     return {"k": "mloads", "bytes": rnd.choice(mbytes)}
